@@ -292,7 +292,7 @@ def enum_lifetime(meta, tier, sel):
 def enum_deathwatch(meta, tier, sel):
     quick = tier == 'quick'
     slen = 5 if quick else 6
-    alpha = ['mon1', 'mon2', 'rel1', 'rel2', 'die1', 'die2', 'cp1', 'cpc1', 'mv1', 'as12', 'as21', 'asmv12', 'die3']
+    alpha = ['mon1', 'mon2', 'rel1', 'rel2', 'die1', 'die2', 'diex1', 'cp1', 'cpc1', 'mv1', 'as12', 'as21', 'asmv12', 'die3']
     sites = [st for st in meta['mon_sites'] if st['cls'] == 'P']
     s0 = [st['site'] for st in sites if st['nseq'] == 0]
     s1 = [st['site'] for st in sites if st['nseq'] == 1]
@@ -327,9 +327,9 @@ def enum_deathwatch(meta, tier, sel):
                     e, site = mon[k]
                     ops.append(('rmexp', e)); mons_live.remove(e); mon[k] = None
                     (free1 if withseq else free0).append(site)
-                elif sym in ('die1', 'die2'):
+                elif sym in ('die1', 'die2', 'diex1'):
                     if alive[k] is None: ok = False; break
-                    ops.append(('rmobj', alive[k])); alive[k] = None
+                    ops.append(('rmobjx' if sym == 'diex1' else 'rmobj', alive[k])); alive[k] = None   # diex: dies during stack unwinding
                     # the requirement object stays alive (satisfied) until released
                     if mon[k] is not None:
                         mon[k] = (mon[k][0], mon[k][1])
